@@ -83,7 +83,7 @@ def run(tier, seed):
     # larger seeded inputs: identities judged by TLC on the recorded outcomes
     events = []
     for it in range(1500 if thorough else 300):
-        t, rf, te, ef = gen.gen_multipitch(rng, rng.choice(gen.SHAPES))
+        t, rf, te, ef = gen.gen_multipitch(rng, rng.choice(gen.SHAPES + ["octaves", "crowded", "crowded_ref"]))
         w = rng.choice([0.5, 0.74, 1.0, 0.25])
         try:
             m = [float(x) for x in mp.metrics(t, rf, te, ef, window=w)]
